@@ -707,6 +707,15 @@ func genUDInput(t *rapid.T, minQueries int, iupacRef bool) (ref string, queries,
 			}
 		}
 	}
+	// a record whose name is a word of the list format's own header
+	if rapid.IntRange(0, 5).Draw(t, "headerWordName") == 0 {
+		w := rapid.SampledFrom([]string{"query", "SNPs", "ambiguities"}).Draw(t, "headerWord")
+		if rapid.Bool().Draw(t, "headerWordInQueries") {
+			queries[rapid.IntRange(0, len(queries)-1).Draw(t, "headerWordIdx")].ID = w
+		} else if len(targets) > 0 {
+			targets[rapid.IntRange(0, len(targets)-1).Draw(t, "headerWordIdx")].ID = w
+		}
+	}
 	return
 }
 
